@@ -337,11 +337,15 @@ func (w *World) FlushHeld(during func()) bool {
 // between whatever that reader looked at before and what it looks at next. Contents do not change,
 // so every oracle that holds for f on a quiescent database must still hold. Returns the number of
 // flushes that took place. Only for phases with no write in flight.
-func (w *World) FlushAtPin(f func()) int {
+func (w *World) FlushAtPin(f func()) int { return w.FlushAtPinAfter(0, f) }
+
+// FlushAtPinAfter is FlushAtPin that lets the first skip readers pin the memtables undisturbed (so
+// that the flush meets a later reader: an iterator rather than the first Get).
+func (w *World) FlushAtPinAfter(skip int, f func()) int {
 	var busy atomic.Bool
-	var n atomic.Int64
+	var n, seen atomic.Int64
 	hook := func(name string) {
-		if name != "memtables.beforePin" || !busy.CompareAndSwap(false, true) {
+		if name != "memtables.beforePin" || seen.Add(1) <= int64(skip) || !busy.CompareAndSwap(false, true) {
 			return
 		}
 		defer busy.Store(false)
